@@ -2813,9 +2813,9 @@ func (h *Hub) processRoomDeleted(message *BackendServerRoomRequest) {
 		session.LeaveRoom(true)
 		switch sess := session.(type) {
 		case *ClientSession:
-			if client := sess.GetClient(); client != nil {
-				h.sendRoom(sess, nil, nil)
-			}
+			// Also tell sessions that are currently disconnected: the message is
+			// queued and delivered when the session is resumed.
+			h.sendRoom(sess, nil, nil)
 		}
 	}
 }
